@@ -83,7 +83,7 @@ def make_plan(prop, seed, tier, i):
 # --------------------------------------------------------------------------- worker
 def work_chunk(args):
     pid, seed, tier, start, end, recheck_every = args
-    faulthandler.dump_traceback_later(900, exit=True)
+    faulthandler.dump_traceback_later(int(os.environ.get('VERIF_CHUNK_WALL', '600')), exit=True)
     logging.disable(logging.CRITICAL)
     prop = load_prop(pid)
     res = {
